@@ -1,7 +1,7 @@
 """Property id -> rules, and the texts that go to MANIFEST / evidence."""
 from .rules import (
     optab, sign, role, memo, state, reord, handles, raw, domain, formats,
-    grammar, cyts, misc, hygiene)
+    grammar, cyts, misc, hygiene, bounds)
 
 PROPS = dict()
 NOT_BUILT = dict()
@@ -13,13 +13,16 @@ GENERIC = (
 
 
 HYGIENE = [hygiene.r_falsy, hygiene.r_enum, hygiene.r_cache,
-           hygiene.r_alias, hygiene.r_term]
+           hygiene.r_alias, hygiene.r_term, hygiene.r_lossy,
+           hygiene.r_shared]
 HYGIENE_TEXT = (
     ' Repository conventions over every function reachable from the '
     'property\'s entry points: optional arguments, lookup results and '
     'levels never tested by truthiness; dictionary position never used as '
     'level; nothing memoised across changes of the manager; no accessor '
-    'returns a manager table; terminal shortcuts keep the sign.')
+    'returns a manager table or shares one between managers; terminal '
+    'shortcuts keep the sign; no equality by hash, no flag tested by '
+    'identity with True/False, no signed references filed under abs().')
 
 
 def prop(pid, rules, decides, not_decided, technique, cython=False):
@@ -125,6 +128,7 @@ prop('C05', [
     grammar.r_grammar,
     optab.r_optab_bdd,
     optab.r_vocab,
+    handles.r_parser,
 ],
     'the lexer is reconstructed from the source (regex docstrings, PLY '
     'ordering rule) and every spelling of every operator rule and every '
@@ -205,6 +209,7 @@ prop('C08', [
 prop('C09', [
     reord.r_reord,
     reord.r_retry,
+    handles.r_numbers,
 ],
     'the retry protocol of _try_to_reorder as a typestate (attempt in '
     'context, requests disabled before reorder(), retry in context, '
@@ -314,6 +319,7 @@ prop('C16', [
 prop('C17', [
     raw.r_raw,
     raw.r_guards,
+    bounds.r_accept,
     raw.r_temporaries,
     reord.r_context,
     handles.r_parser,
@@ -324,7 +330,9 @@ prop('C17', [
     'of a non-assertion error, or a call to one of the repository\'s '
     'validators) follows the first write, except for reviewed exemptions; '
     'the argument checks named in the anchors are present and precede '
-    'the first use; dd.autoref checks every operand against its manager; '
+    'the first use; the prologues of find_or_add and swap, interpreted '
+    'over all small models, accept exactly the arguments of their '
+    'contract; dd.autoref checks every operand against its manager; '
     'the reordering context restores its flag first thing on every exit; '
     'loader temporaries are released on normal and exceptional exits; '
     'the parser never holds Function objects.',
@@ -350,12 +358,15 @@ prop('C19', [
                              'dd.buddy'}),
     optab.r_quant_wrappers({'dd.cudd', 'dd.cudd_zdd', 'dd.sylvan'}),
     cyts.r_cyts,
+    cyts.r_cache_tags,
 ],
     'the apply chain of each C wrapper (parsed with the Cython parser) is '
     'interpreted per alias over Booleans and compared with the '
     'interpretation of dd.bdd.BDD.apply (truth tables; operand roles of '
     'quantifiers using parameter names from c_sylvan.pxd); Function '
-    'operator methods likewise.',
+    'operator methods likewise; each user of the CUDD computed table '
+    'looks up and inserts under one tag of its own and the same '
+    'operands.',
     'anything about the C libraries behind the wrappers.',
     'abstract interpretation of Cython dispatch tables; reference '
     'typestate on DdNode locals', cython=True)
